@@ -664,6 +664,74 @@ func sliceBase(v ssa.Value) (base ssa.Value, low ssa.Value) {
 	}
 }
 
+// sliceOffset: the base buffer of v and its start offset as a sum of symbolic terms plus a constant.
+func sliceOffset(v ssa.Value) (base ssa.Value, terms []ssa.Value, konst int64) {
+	var add func(e ssa.Value)
+	add = func(e ssa.Value) {
+		if e == nil {
+			return
+		}
+		if k, ok := model.ConstInt(e); ok {
+			konst += k
+			return
+		}
+		if bo, ok := e.(*ssa.BinOp); ok && bo.Op == token.ADD {
+			add(bo.X)
+			add(bo.Y)
+			return
+		}
+		if bo, ok := e.(*ssa.BinOp); ok && bo.Op == token.SUB {
+			if k, ok := model.ConstInt(bo.Y); ok {
+				add(bo.X)
+				konst -= k
+				return
+			}
+		}
+		terms = append(terms, e)
+	}
+	for {
+		switch x := v.(type) {
+		case *ssa.Slice:
+			add(x.Low)
+			v = x.X
+		case *ssa.ChangeType:
+			v = x.X
+		default:
+			return v, terms, konst
+		}
+	}
+}
+
+// offsetRelation compares the start offsets of two slices of the same buffer: +1 provably equal,
+// -1 provably different by a non-zero constant, 0 unknown (unrelated symbolic offsets: the regions
+// may well be disjoint parts of one scratch buffer, which is not decidable structurally).
+func offsetRelation(a, b ssa.Value) int {
+	_, ta, ka := sliceOffset(a)
+	_, tb, kb := sliceOffset(b)
+	used := make([]bool, len(tb))
+	for _, x := range ta {
+		found := false
+		for j, y := range tb {
+			if !used[j] && structEq(x, y, 5) {
+				used[j], found = true, true
+				break
+			}
+		}
+		if !found {
+			return 0
+		}
+	}
+	for j := range tb {
+		if !used[j] {
+			return 0
+		}
+	}
+	if ka == kb {
+		return 1
+	}
+	return -1
+}
+
 func sameLow(a, b ssa.Value) bool {
 	isZero := func(v ssa.Value) bool {
 		if v == nil {
@@ -756,20 +824,25 @@ func runOverlap(m *model.Model, s *ob.Set) {
 							continue
 						}
 						kSites++
+						rel := offsetRelation(c.Args[0], a)
+						_, _, dk := sliceOffset(c.Args[0])
+						_, _, sk := sliceOffset(a)
 						switch {
 						case elementwise[cal.Name()]:
-							if !sameLow(dLow, sLow) {
-								badK = append(badK, fmt.Sprintf("%s: %s is used in place but destination and source start at different offsets of the same buffer", m.InstrPos(in), cal.Name()))
+							if rel < 0 {
+								badK = append(badK, fmt.Sprintf("%s: %s is used in place but destination and source start at offsets of the same buffer that differ by a constant (%+d words): the regions overlap out of step", m.InstrPos(in), cal.Name(), dk-sk))
 							}
 						case cal.Name() == "shl10VU":
-							if !sameLow(sLow, nil) && !sameLow(dLow, sLow) {
+							// digits move towards higher indices: the source must not start above the destination
+							if rel < 0 && sk > dk {
 								badK = append(badK, fmt.Sprintf("%s: in-place shl10VU must not have its source above its destination", m.InstrPos(in)))
 							}
 						case cal.Name() == "shr10VU":
-							if !sameLow(dLow, nil) && !sameLow(dLow, sLow) {
+							if rel < 0 && dk > sk {
 								badK = append(badK, fmt.Sprintf("%s: in-place shr10VU must not have its destination above its source", m.InstrPos(in)))
 							}
 						}
+						_, _ = dLow, sLow
 						continue
 					}
 					// dec-layer call with receiver and operand sharing a buffer
